@@ -10,7 +10,7 @@ import math
 
 import numpy as np
 
-from .. import contracts, gen, geom, points
+from .. import aging, contracts, gen, geom, points
 
 PROPERTY = "C14"
 RULE = ("Convex polygons in the xy-plane (regular and irregular, 3-30 vertices, exactly horizontal/vertical edges, any in-plane "
@@ -26,7 +26,7 @@ ANCHORS = ["coxeter.shapes.convex_polygon:ConvexPolygon.distance_to_surface",
 REQUIRED_MONITORS = ["Circle.distance_to_surface", "Ellipse.distance_to_surface", "ConvexPolygon.distance_to_surface",
                      "ConvexSpheropolygon.distance_to_surface", "argument-unchanged"]
 REQUIRED_CLASSES = ["poly:regular", "poly:irregular", "poly:axis-aligned", "sphero:r=0", "sphero:r>0", "Ellipse", "Circle",
-                    "angles:ndarray:f", "angles:ndarray:i", "angles:list:int", "angles:list:float", "angles:tuple:float"]
+                    "angles:ndarray:f", "angles:ndarray:i", "angles:list:int", "angles:list:float", "angles:tuple:float", "history:aged-object"]
 
 
 def ncases(tier):
@@ -218,6 +218,11 @@ def run_case(i, rng, rec, tier, state):
         cls = "Ellipse"
         rec.cls("Ellipse")
         info = {"class": cls, "axes": ax}
+    # one case in four judges an object with a past: reads, in-plane moves, resizes, a semi-axis or the rounding radius
+    # assigned through the public API (the postconditions read the *current* vertices / radius / axes / centre)
+    if (i // 4) % 4 == 1:
+        info["history"] = aging.age(s, rng, allow=("size", "axis", "radius", "move", "core"), inplane=True)
+        rec.cls("history:aged-object")
     # the same angles in the other forms an "array of angles" takes: integer arrays (whole radians), lists and tuples
     ints = rng.integers(-12, 13, size=12)
     forms = [th, th[(th >= 0) & (th < 2 * np.pi)], th[:1], ints.astype(np.int64), ints.astype(np.int32),
